@@ -102,39 +102,7 @@
  */
 #include "p2_pre.h"
 
-unsigned long long verif_k;		/* ghost byte index into the scan buffer view (= IN.k) */
-unsigned long long verif_g0;		/* original value of that byte */
-unsigned long long verif_g2;		/* detect: witness position of an illegal character */
-
-#define P2N_BUF ((const unsigned char *) dirent)
-#define P2N_NL ((int) (dirent->name_len & 0xff))
-#define P2N_IN_PASSED(k, i) ((k) >= 8 && (k) < 8 + (unsigned long long) (i))
-
-#if defined(VERIF_UNIT_p2_check_name_repair)
-#define VERIF_INV_PASS2_CHECK_NAME \
-	__CPROVER_assigns(i, fixup, ret, __CPROVER_object_upto(dirent->name, 255), \
-			  __CPROVER_object_whole(p2_log), p2_nlog, p2_nserious, p2_nchoice) \
-	__CPROVER_loop_invariant(0 <= i && i <= P2N_NL) \
-	__CPROVER_loop_invariant(fixup == -1 || fixup == 1) \
-	__CPROVER_loop_invariant(fixup != -1 || (ret == 0 && p2_nlog == 0 && p2_nserious == 0 && \
-		P2N_BUF[verif_k] == verif_g0 && (!P2N_IN_PASSED(verif_k, i) || !P2F_BAD_CHAR(verif_g0)))) \
-	__CPROVER_loop_invariant(fixup != 1 || (ret == 1 && p2_nlog == 1 && p2_log[0] == PR_2_BAD_NAME && p2_nserious == 1 && \
-		P2N_BUF[verif_k] == ((P2N_IN_PASSED(verif_k, i) && P2F_BAD_CHAR(verif_g0)) ? '.' : verif_g0))) \
-	__CPROVER_decreases(P2N_NL - i)
-#elif defined(VERIF_UNIT_p2_check_name_detect)
-#define VERIF_INV_PASS2_CHECK_NAME \
-	__CPROVER_assigns(i, fixup, ret, __CPROVER_object_whole(p2_log), p2_nlog, p2_nserious, p2_nchoice) \
-	__CPROVER_loop_invariant(0 <= i && i <= P2N_NL) \
-	__CPROVER_loop_invariant(fixup == -1 && ret == 0 && p2_nlog == 0 && p2_nserious == 0) \
-	__CPROVER_loop_invariant((unsigned long long) i <= verif_g2) \
-	__CPROVER_decreases(P2N_NL - i)
-#elif defined(VERIF_UNIT_p2_check_name_sound)
-#define VERIF_INV_PASS2_CHECK_NAME \
-	__CPROVER_assigns(i) \
-	__CPROVER_loop_invariant(0 <= i && i <= P2N_NL) \
-	__CPROVER_loop_invariant(fixup == -1 && ret == 0) \
-	__CPROVER_decreases(P2N_NL - i)
-#endif
+#include "p2_name_inv.h"
 
 static int check_name(e2fsck_t ctx, struct ext2_dir_entry *dirent, struct problem_context *pctx)
 	REQUIRES(dirent->rec_len >= 12 && (dirent->rec_len & 3) == 0)
@@ -185,6 +153,7 @@ void h_name_detect(void)
 	verif_k = IN.k;
 	verif_g0 = w.b0;
 	verif_g2 = IN.j;
+	verif_g3 = 0;
 
 	r = check_name(w.ctx, w.dirent, &w.pctx);
 	CHECK(p2_nserious >= 1, "an illegal name raises at least one problem without PR_NO_OK");
